@@ -74,19 +74,56 @@ func (z *Decimal) GobDecode(buf []byte) error {
 		return fmt.Errorf("Decimal.GobDecode: encoding version %d not supported", buf[0])
 	}
 
+	if len(buf) < 6 {
+		return fmt.Errorf("Decimal.GobDecode: buffer too small (%d bytes)", len(buf))
+	}
+
+	// Decode and validate everything before touching z: a corrupt buffer must
+	// neither panic nor leave a malformed Decimal behind.
+	b := buf[1]
+	mode := RoundingMode((b >> 5) & 7)
+	acc := Accuracy((b>>3)&3) - 1
+	f := form((b >> 1) & 3)
+	prec := binary.BigEndian.Uint32(buf[2:])
+	if mode > ToPositiveInf || acc > Above || f > inf {
+		return fmt.Errorf("Decimal.GobDecode: invalid mode, accuracy or form (%#x)", b)
+	}
+
+	var (
+		exp  int32
+		mant dec
+	)
+	if f == finite {
+		if len(buf) < 10 {
+			return fmt.Errorf("Decimal.GobDecode: buffer too small for a finite number (%d bytes)", len(buf))
+		}
+		exp = int32(binary.BigEndian.Uint32(buf[6:]))
+		mant = dec(nil).setBytes(buf[10:])
+		if len(mant) == 0 || mant[len(mant)-1] < _DB/10 {
+			return fmt.Errorf("Decimal.GobDecode: mantissa is zero or not normalized")
+		}
+		for _, w := range mant {
+			if w >= _DB {
+				return fmt.Errorf("Decimal.GobDecode: invalid mantissa word")
+			}
+		}
+		if digits := uint64(len(mant))*_DW - uint64(mant.trailingZeroDigits()); prec == 0 || digits > uint64(prec) {
+			return fmt.Errorf("Decimal.GobDecode: mantissa has %d digits, precision is %d", digits, prec)
+		}
+	}
+
 	oldPrec := z.prec
 	oldMode := z.mode
 
-	b := buf[1]
-	z.mode = RoundingMode((b >> 5) & 7)
-	z.acc = Accuracy((b>>3)&3) - 1
-	z.form = form((b >> 1) & 3)
+	z.mode = mode
+	z.acc = acc
+	z.form = f
 	z.neg = b&1 != 0
-	z.prec = binary.BigEndian.Uint32(buf[2:])
+	z.prec = prec
 
 	if z.form == finite {
-		z.exp = int32(binary.BigEndian.Uint32(buf[6:]))
-		z.mant = z.mant.setBytes(buf[10:])
+		z.exp = exp
+		z.mant = z.mant.set(mant)
 	}
 
 	if oldPrec != 0 {
